@@ -1489,6 +1489,61 @@ func sdpParamBytes(sdp ref.Sdp) string {
 // on the name (the attempt is the only thing that keeps the stream's state alive); it then attaches.
 // From then on it is the accepted input like any other: witnesses joining get its media, the stat
 // API lists it, and a publisher arriving now is refused.
+// c03PullMediaBeforeStart: the origin of a relay pull sends its stream right after the play command, before (here:
+// without ever) answering NetStream.Play.Start. Until that answer the attempt is not the stream's input - no
+// pull_start, nothing in the stat - so none of its frames may reach the stream's subscribers.
+func c03PullMediaBeforeStart(c *fw.Ctx, i int) {
+	e := c03Start(c, i)
+	if e == nil {
+		return
+	}
+	defer e.stop()
+	e.desc = "the origin of a relay pull sends media before answering Play.Start"
+	c.Describe("%s", e.desc)
+	c.Cell("pull-media-before-play-start")
+	p := e.newActor("pull")
+	all := []*c03Actor{p}
+	p.acquire(true)
+	if p.sid == "" {
+		c.Inconclusive("pull attempt did not start\n%s", e.trace())
+		e.finish(all)
+		return
+	}
+	if !srv.WaitFor(3*time.Second, func() bool {
+		for _, ss := range e.stub.Snapshot() {
+			if ss.N == p.stubIdx {
+				if role, _, _ := ss.GetRole(); role == "play" {
+					p.sess = ss
+					return true
+				}
+			}
+		}
+		return false
+	}) {
+		c.Inconclusive("origin never saw the play request\n%s", e.trace())
+		e.finish(all)
+		return
+	}
+	p.burst()
+	e.logf("origin sent %d media units without having answered Play.Start", len(p.expected))
+	time.Sleep(400 * time.Millisecond)
+	c.Eval(1)
+	if _, attached := e.s.Notify.Wait(0, p.from, func(ev srv.Event) bool { return ev.Kind == "pull_start" && ev.SessionId == p.sid }); attached {
+		// lal took the attempt for attached without the origin's answer: then it is the input and its media belongs there
+		c.Count("attached_without_play_start", 1)
+	} else {
+		e.markRefused(p.id)
+		e.checkForeign(all)
+	}
+	// the attempt stays open (undecided) until the end of the history: close it and do not ask porcupine about it
+	p.closeConn()
+	if p.sess != nil {
+		p.sess.RC.Conn.Close()
+	}
+	e.witR.Close()
+	e.witF.Close()
+}
+
 func c03PullAlone(c *fw.Ctx, i int, pk string) {
 	e := c03Start(c, i)
 	if e == nil {
@@ -2050,7 +2105,7 @@ func init() {
 	for _, h := range []string{"rtmp", "rtsp", "customize", "pull"} {
 		cat = append(cat, sc{"subs", h, ""})
 	}
-	cat = append(cat, sc{"auth-refusals", "", ""}, sc{"publish-twice-other-name", "", ""})
+	cat = append(cat, sc{"auth-refusals", "", ""}, sc{"publish-twice-other-name", "", ""}, sc{"pull-media-before-play-start", "", ""})
 	for _, m := range []string{"announce-twice", "announce-other-stream", "announce-then-describe", "describe-twice"} {
 		cat = append(cat, sc{"rtsprepeat", m, ""})
 	}
@@ -2087,6 +2142,8 @@ func init() {
 					c03AuthRefusals(c, i)
 				case "publish-twice-other-name":
 					c03PublishTwiceOtherName(c, i)
+				case "pull-media-before-play-start":
+					c03PullMediaBeforeStart(c, i)
 				default:
 					c03ForeignSubs(c, i, x.a)
 				}
